@@ -145,8 +145,6 @@ def int_from_bytes(data, byteorder="big", *, signed=False):
         top = octs[-1]
         sign = (top >> 7) if isinstance(top, int) else (top >> 7)
         r = r - sign * (1 << (8 * len(octs)))
-    if isinstance(r, SInt):
-        r = r.norm()
     return r
 
 
